@@ -401,6 +401,173 @@ fn gen_int_key() -> BoxedStrategy<Value> {
     (data, ints).prop_map(|(d, i)| json!({"data": d, "i": i})).boxed()
 }
 
+/// First components of the paths a rule names in its *outer* data scope; None when the rule reads the whole data,
+/// computes a key, or uses a key form outside the property (then the frame law is not applicable).
+fn named_roots(rule: &Value, acc: &mut std::collections::BTreeSet<String>) -> Option<()> {
+    let (name, operand) = match model::eval::as_operation(rule) {
+        None => return Some(()),
+        Some(x) => x,
+    };
+    let args = model::eval::operands(operand);
+    let key_root = |k: &Value, acc: &mut std::collections::BTreeSet<String>| -> Option<()> {
+        match k {
+            Value::String(s) if s.is_empty() => None,
+            Value::String(s) => {
+                let parts = model::Ctx::split_path(s).ok()?;
+                acc.insert(parts[0].clone());
+                Some(())
+            }
+            Value::Number(n) if !n.is_f64() => {
+                acc.insert(n.as_i64()?.to_string());
+                Some(())
+            }
+            _ => None, // null = whole data, computed keys, other key types
+        }
+    };
+    match name {
+        "var" => {
+            if args.is_empty() {
+                return None;
+            }
+            key_root(args[0], acc)?;
+            for a in &args[1..] {
+                named_roots(a, acc)?;
+            }
+            Some(())
+        }
+        "missing" => {
+            let keys: Vec<&Value> = match args.first() {
+                Some(Value::Array(inner)) => inner.iter().collect(),
+                _ => args.clone(),
+            };
+            for k in keys {
+                if k.is_null() {
+                    continue;
+                }
+                key_root(k, acc)?;
+            }
+            Some(())
+        }
+        "missing_some" => {
+            if args.len() != 2 {
+                return Some(());
+            }
+            named_roots(args[0], acc)?;
+            match args[1] {
+                Value::Array(keys) => {
+                    for k in keys {
+                        if k.is_null() {
+                            continue;
+                        }
+                        key_root(k, acc)?;
+                    }
+                    Some(())
+                }
+                _ => None,
+            }
+        }
+        "map" | "filter" | "reduce" => {
+            // the element expression runs in the element's scope and cannot see the outer data at all
+            if let Some(c) = args.first() {
+                named_roots(c, acc)?;
+            }
+            if name == "reduce" {
+                if let Some(z) = args.get(2) {
+                    named_roots(z, acc)?;
+                }
+            }
+            Some(())
+        }
+        "all" | "some" | "none" => {
+            match args.first() {
+                Some(Value::Array(items)) => {
+                    for e in items {
+                        named_roots(e, acc)?;
+                    }
+                }
+                Some(c) => named_roots(c, acc)?,
+                None => {}
+            }
+            Some(())
+        }
+        _ => {
+            for a in args {
+                named_roots(a, acc)?;
+            }
+            Some(())
+        }
+    }
+}
+
+/// "parts of the data not named by the rule's paths never influence the result", for arbitrary rules
+fn check_frame_general(case: &Value, obs: &mut Obs) -> Result<(), String> {
+    let (rule, data) = (rule_of(case), data_of(case));
+    let obj = match data {
+        Value::Object(o) => o,
+        _ => {
+            obs.class("data is not an object");
+            return Ok(());
+        }
+    };
+    let mut roots = std::collections::BTreeSet::new();
+    if named_roots(rule, &mut roots).is_none() {
+        obs.class("rule reads the whole data or computes a key");
+        return Ok(());
+    }
+    if let (Res::Unspec("over_budget"), _) = model::eval(rule, data) {
+        obs.skip("over_budget");
+        return Ok(());
+    }
+    let mut changed = Map::new();
+    let mut touched = 0;
+    for (k, v) in obj {
+        if roots.contains(k) {
+            changed.insert(k.clone(), v.clone());
+        } else {
+            touched += 1;
+            match case["mode"].as_u64().unwrap_or(0) % 3 {
+                0 => {
+                    changed.insert(k.clone(), json!({"frame": ["changed", k]}));
+                }
+                1 => {} // removed
+                _ => {
+                    changed.insert(k.clone(), Value::Null);
+                }
+            }
+        }
+    }
+    let mut extra = "§frame-extra§".to_string();
+    while roots.contains(&extra) {
+        extra.push('§');
+    }
+    changed.insert(extra, json!([1, {"var": "a"}]));
+    let changed = Value::Object(changed);
+    let a = crate::imp::apply_traced(rule, data);
+    let b = crate::imp::apply_traced(rule, &changed);
+    obs.evals += 2;
+    sanity(&a, rule, data)?;
+    sanity(&b, rule, &changed)?;
+    let same = match (&a.out, &b.out) {
+        (crate::imp::Out::Ok(x), crate::imp::Out::Ok(y)) => model::identical(x, y) && a.lines == b.lines,
+        (crate::imp::Out::Err(_), crate::imp::Out::Err(_)) => true,
+        _ => false,
+    };
+    if !same {
+        return Err(format!("data not named by the rule's paths influenced the result: {} names only {:?}; on {} it gives {} {:?} but on {} it gives {} {:?}", rule, roots, data, a.out.short(), a.lines, changed, b.out.short(), b.lines));
+    }
+    if !roots.is_empty() && touched > 0 {
+        obs.nt(&format!("{} named root(s), {} unrelated member(s) changed", roots.len().min(3), touched.min(3)));
+    } else {
+        obs.class("nothing named or nothing unrelated");
+    }
+    Ok(())
+}
+
+fn gen_frame_general() -> BoxedStrategy<Value> {
+    let cfg = rules::Cfg::all_ops().keys(&["a", "b", "c", "0", "1", "a.b", "xs", "k", "é"]).vars(10).poison(1).bad_arity(10);
+    (rules::rooted(cfg), gen::object_of(gen::values(), 6), 0u64..3).prop_map(|(r, d, m)| json!({"rule": r, "data": d, "mode": m})).boxed()
+}
+
 fn check_rules(case: &Value, obs: &mut Obs) -> Result<(), String> {
     let d = diff(rule_of(case), data_of(case), obs, TraceMode::Multiset)?;
     if matches!(d.model, Res::Ok(_)) && (d.ctx.var_deep > 0 || d.ctx.var_negative > 0 || d.ctx.var_string_index > 0 || d.ctx.var_default_used > 0) {
@@ -450,6 +617,18 @@ pub fn property() -> Property {
                 fixed: None,
                 fixed_exhaustive: false,
                 check: check_int_key,
+                quick: 80_000,
+                thorough: 4_000_000,
+                small_stack: false,
+            },
+            Sub {
+                name: "frame_general",
+                about: "arbitrary generated rules over all 35 operators on object data: the first components of every path the rule names in its outer scope (var, missing, missing_some with literal keys; element expressions of map / filter / reduce and predicates of all / some / none run in their own scope) are computed statically; every other top-level member is replaced, removed or nulled and an unrelated member is added; value, error-ness and log lines must not change (model-free).",
+                nontrivial: "the rule names at least one path and at least one unrelated member was changed.",
+                strategy: Some(gen_frame_general),
+                fixed: None,
+                fixed_exhaustive: false,
+                check: check_frame_general,
                 quick: 80_000,
                 thorough: 4_000_000,
                 small_stack: false,
